@@ -260,3 +260,7 @@ package zzengine
 //@ func okLenientImpl
 //@   ensures err == nil ==> capturedVar(f, "v") == a
 //@   ensures a >= 0 ==> err == nil
+//@ func okOldParam
+//@   ensures result <= old(n) && (old(n) <= 3 ==> result == old(n))
+//@ func badOldParam
+//@   ensures result == old(n)
